@@ -11,6 +11,9 @@
 -/
 import PyModeS.Tie.Common
 
+-- symbolic execution of long generated `do` blocks: generous but finite budget (proof times are seconds)
+set_option maxHeartbeats 1000000
+
 set_option linter.unusedSimpArgs false
 set_option linter.style.nameCheck false
 namespace PyModeS.Tie.CrcTie
